@@ -105,6 +105,13 @@ def prove_builtin(timeout_ms=10000):
     prove('SUMR.ext.base', [n <= 0] + Z.sumr_def(a, n) + Z.sumr_def(b2, n), Z.SUMR(a, n) == Z.SUMR(b2, n))
     prove('SUMR.ext.step', [n >= 0, Z.SUMR(a, n) == Z.SUMR(b2, n), Z.num(z3.Select(a, n)) == Z.num(z3.Select(b2, n))]
           + Z.sumr_def(a, n) + Z.sumr_def(b2, n), Z.SUMR(a, n + 1) == Z.SUMR(b2, n + 1))
+    # prefix counts PC(k) = sum_{i<k} L(i) with L >= 0: monotone -- i < k => PC(i) + L(i) <= PC(k), by induction on k
+    PCf = z3.Function('PCf', Z.I, Z.I)
+    Lf = z3.Function('Lf', Z.I, Z.I)
+    i = z3.Int('i')
+    rec = lambda kk: PCf(kk + 1) == PCf(kk) + Lf(kk)
+    prove('PC.mono.base', [n == 0, i >= 0, i < n], PCf(i) + Lf(i) <= PCf(n))
+    prove('PC.mono.step', [n >= 0, i >= 0, i < n + 1, Lf(n) >= 0, rec(n), z3.Implies(i < n, PCf(i) + Lf(i) <= PCf(n))], PCf(i) + Lf(i) <= PCf(n + 1))
     # the instantiated facts used for abstract multiplication are theorems of real arithmetic
     y = z3.Real('y')
     for k, f in enumerate(Z.mul_facts(x, y, x * y)):
